@@ -41,6 +41,11 @@ ASSUMPTIONS = [
     'the limit stores a prefix and returns the short count, later writes raise '
     'ENOSPC; open() is emulated faithfully (io.BufferedWriter over that raw file '
     'unless buffering=0 is requested)',
+    'filesystem model: the cache directory lies on another filesystem than '
+    'everything outside it, so shutil.move of a file INTO the cache directory is '
+    'a copy onto the final name that can be interrupted; moves inside one '
+    'directory are renames',
+    'a 5xx answer carries an error page with its own content-length, not the file',
     'crash model: exception (BaseException subclass) at the fault point, plus '
     'a forked child calling os._exit there (no unwinding, no flush); '
     'reordering of distinct files by power loss is not modelled',
@@ -175,15 +180,19 @@ class FakeRequests:
     resp = real_requests.Response()
     resp.url = url
     resp.status_code = 503 if f['site'] == 'status' else 200
+    body = self.payload
     if f['site'] == 'status':
       self.plan.fired = True
-    headers = {'content-length': str(len(self.payload))}
+      # what a server in trouble sends: an error page with its own length, not
+      # the file that was asked for
+      body = b'<html><body><h1>503 Service Unavailable</h1></body></html>\n'
+    headers = {'content-length': str(len(body))}
     if f['site'] == 'no_length':
       headers = {}
       self.plan.fired = True
     resp.headers = real_requests.structures.CaseInsensitiveDict(headers)
     resp.raw = urllib3.HTTPResponse(
-        body=FaultyBody(self.payload, self.plan), headers=headers,
+        body=FaultyBody(body, self.plan), headers=headers,
         status=resp.status_code, preload_content=False, decode_content=False,
         request_method='GET')
     return resp
@@ -238,6 +247,36 @@ class OsProxy:
 
   def __getattr__(self, name):
     return getattr(os, name)
+
+
+class ShutilProxy:
+  """`shutil` as seen by downloads.py.  The cache directory is modelled as lying
+  on another filesystem than everything outside it (a tmpfs TMPDIR next to a
+  cache on disk): moving a file INTO the cache directory from elsewhere cannot
+  be a rename -- it is a copy onto the destination name followed by removing the
+  source, and it can be interrupted half-way.  Moves inside one directory are
+  plain renames."""
+
+  def __init__(self, plan):
+    self._plan = plan
+
+  def move(self, src, dst, *a, **k):
+    p, f = self._plan, self._plan.fault
+    if os.path.dirname(os.path.abspath(src)) == os.path.dirname(os.path.abspath(dst)):
+      return shutil.move(src, dst, *a, **k)
+    data = open(src, 'rb').read()
+    with open(dst, 'wb') as out:
+      if f['site'] == 'xdev_move' and not p.fired:
+        keep = {'none': 0, 'half': len(data) // 2, 'allbut1': max(0, len(data) - 1)}[f['prefix']]
+        out.write(data[:keep])
+        out.flush()
+        p.fail(f['mode'], OSError(5, 'Input/output error'))
+      out.write(data)
+    os.remove(src)
+    return dst
+
+  def __getattr__(self, name):
+    return getattr(shutil, name)
 
 
 class LzmaReader:
@@ -312,6 +351,7 @@ def install(mod, plan, payload=b''):
   mod.requests = FakeRequests(payload, plan)
   mod.os = OsProxy(plan)
   mod.lzma = LzmaProxy(plan)
+  mod.shutil = ShutilProxy(plan)
 
   def fake_open(path, mode='r', *a, **k):
     if 'w' in mode and plan.fault['site'] == 'disk_full':
@@ -683,6 +723,11 @@ def decompress_faults(size):
     for k in range(nb):
       for prefix in ('none', 'half', 'allbut1'):
         out.append({'site': 'write', 'index': k, 'prefix': prefix, 'mode': mode})
+  # a file moved into the cache from another filesystem is copied; the copy is
+  # interrupted (fires only if the code under test moves files across directories)
+  for mode in ('error', 'crash'):
+    for prefix in ('none', 'half', 'allbut1'):
+      out.append({'site': 'xdev_move', 'prefix': prefix, 'mode': mode})
   # the disk fills up after `byte` bytes of output (block boundaries, inside the
   # first, a middle and the LAST copy block, one byte before the end)
   cuts = {0, 1, size // 2, max(0, size - 1), max(0, size - COPY // 2)}
